@@ -346,7 +346,12 @@ class MessageManager(ClientLike):
                     )
 
         else:
-            module.mod_id = self.assign_module_id()
+            try:
+                module.mod_id = self.assign_module_id()
+            except RuntimeError:
+                # no dynamic id left: refuse this client, keep serving the others
+                self.remove_module(module)
+                return False
 
         module.connected = True
 
